@@ -157,7 +157,7 @@ impl Property for C08 {
         }
     }
     fn rule(&self) -> String {
-        "proptest generates a symbol program (true length L) with or without end marker; per program the check ENUMERATES the matrix {ReadFromHeader, ReadHeaderButUseProvided(None|Some n), UseProvided(None|Some n)} x header size field {all-ones, L, L+-1, 0, 2^40, 2^63, max-1, a size inside a copy's span, a symbol boundary < L} x n (same value set) x trailing bytes {0,1,8}, plus truncation of the file at every offset for the ReadFromHeader cells. Oracle: the reference decoder run with the effective size the property's option table defines (provided value overrides the header; all-ones = none); lzma-rs must give the same verdict and output, and on success with a size in effect leave exactly the unread tail in the reader (13/13/5 header bytes). The reference decoder's verdicts are themselves checked against constructive expectations (size on a symbol boundary <= L => Ok prefix; inside a copy => Err; beyond L without trailing bytes => Err; marker then trailing byte => Err). Non-trivial = effective size differs from L, or marker and size both present, or trailing bytes, or truncation; distinct = (program hash, cell).".into()
+        "proptest generates a symbol program (true length L) with or without end marker; per program the check ENUMERATES the matrix {ReadFromHeader, ReadHeaderButUseProvided(None|Some n), UseProvided(None|Some n)} x header size field {all-ones, L, L+-1, 0, 2^40, 2^63, max-1, a size inside a copy's span, a symbol boundary < L} x n (same value set) x trailing bytes {0,1,8}, plus truncation of the file at every offset for the ReadFromHeader cells. Oracle: the reference decoder run with the effective size the property's option table defines (provided value overrides the header; all-ones = none); lzma-rs must give the same verdict and output, and on success with a size in effect leave exactly the unread tail in the reader (13/13/5 header bytes). The reference decoder's verdicts are themselves checked against constructive expectations (size on a symbol boundary <= L => Ok prefix; inside a copy => Err; marker then trailing byte => Err; no expectation is attached to sizes beyond L, because the coder's flush bytes can decode into a few more symbols). Non-trivial = effective size differs from L, or marker and size both present, or trailing bytes, or truncation; distinct = (program hash, cell).".into()
     }
     fn assumptions(&self) -> Vec<String> {
         vec!["leniency built into the oracle: with no size in effect, input ending exactly on a symbol boundary with range-coder code == 0 is accepted without a marker (LZMA SDK 'may be finished without marker'); computed by the reference decoder, nothing wider is accepted".into()]
@@ -238,7 +238,10 @@ impl Property for C08 {
             if cell.trunc.is_none() && cell.trailing == 0 {
                 let want_ok: Option<bool> = match s_eff {
                     Some(s) if s <= l => Some(s == 0 || enc.table[..c.ops.len()].iter().any(|t| t.produced == s)),
-                    Some(_) => Some(false),
+                    // a size beyond L carries no constructive expectation: the range coder's
+                    // flush bytes (already in the decoder's code register) can happen to
+                    // decode into further symbols without reading any input
+                    Some(_) => None,
                     None if c.marker => Some(true),
                     None => None, // lenient rule: depends on code == 0
                 };
